@@ -173,6 +173,7 @@ func recNewMnemonic(n int64, lang int64, extra Event) (out string, err error) {
 // swapSource installs r and records whether the previous source was crypto/rand.Reader itself.
 func swapSource(r io.Reader, kind string) io.Reader {
 	prev := bip39.VerifSwapSource(r)
+	curSource = kind
 	emit(Event{"op": "Swap", "prev_is_os": prev == osRandReader(), "new": kind})
 	return prev
 }
